@@ -201,7 +201,8 @@ def end_of_step_dispatch(chk: Check) -> None:
     ff = chk.ctx.facts.analyse(step)
     runs = [n for n in cfg.nodes if any(norm(c.func) == f'{IA}.run' for c in _calls(n))]
     trans = [n for n in cfg.nodes if node_has_call(n, 'transition_to')]
-    chk.need(bool(runs) and bool(trans), 'end-of-step dispatch sites not found in Process.step')
+    chk.ob('DOM-end-of-step', step, bool(runs), 'step() runs the pending interrupt action at the end of the step', kind='action-run-site-present')
+    chk.ob('DOM-end-of-step', step, bool(trans), 'step() performs the plain transition at the end of the step', kind='transition-site-present')
     execs = [n for n in cfg.nodes if n.expr() is not None and any(isinstance(x, ast.Await) and '_state.execute' in norm(x) for x in walk_shallow(n.expr()))]
     chk.need(len(execs) >= 1, 'the await of the state\'s execute was not found in Process.step')
     ex = execs[0]
